@@ -37,7 +37,15 @@ def constraint_programs(ctx, n=None):
             if f[0] not in ('dia', 'box'):
                 f = ('dia', ('patom', 'a'), f)
             part = rng.choice(gen.PARTS)
-            if rng.random() < 0.6:
+            k = rng.random()
+            if k < 0.3:
+                # look-ahead constraint: the &del atom of state t reaches the theory one or two steps late
+                rules.append({'part': rng.choice(['initial', 'always', 'dynamic']), 'head': ('cons',),
+                              'body': [(rng.choice('pnm'), ('del', f)), (rng.choice('pn'), ('fatom', rng.choice(atoms), rng.randint(1, 2)))]})
+                if rng.random() < 0.7:      # ... while a sub-formula of it was already translated for another atom
+                    subs = [g for g in gen.subformulas(f) if g[0] in ('dia', 'box')]
+                    rules.append({'part': 'always', 'head': ('norm', 'c', 0), 'body': [(rng.choice('nm'), ('del', rng.choice(subs)))]})
+            elif k < 0.65:
                 rules.append({'part': part, 'head': ('cons',), 'body': [(rng.choice('pnm'), ('del', f))]})
             else:
                 rules.append({'part': part, 'head': ('norm', 'c', 0), 'body': [(rng.choice('nm'), ('del', f))]})
